@@ -50,16 +50,14 @@ def strip_tokens(s, keys):
 
 
 # ------------------------------------------------------------------ known-finding classes (predicates on an op)
-def cls_pushpromise_writer(op):
-    return op.startswith("frame.write PUSH_PROMISE ")
+# (none left in this area: F14, the PUSH_PROMISE writer, is repaired and its writes are judged like every other type's)
+CLASSES = {}
 
-
-CLASSES = {"pushpromise_writer": cls_pushpromise_writer}
-
-# Witnesses of findings that have been repaired (F35: SETTINGS values of zero were not written): replayed on every run of
-# the property like generated operations, compared with the model and judged by the monitors with nothing excused, so
-# the defect is reported if it returns.
-REGRESSION = {"C05": ["known/F35.ops"]}
+# Witnesses of findings that have been repaired (F35: SETTINGS values of zero were not written; F14: PUSH_PROMISE was
+# written without promised stream id, END_HEADERS and padding): replayed on every run of the property like generated
+# operations, compared with the model and judged by the monitors with nothing excused, so the defect is reported if it
+# returns.
+REGRESSION = {"C05": ["known/F35.ops", "known/F14.ops"]}
 
 
 # ------------------------------------------------------------------ Spec-vs-x/net sanity
@@ -184,11 +182,33 @@ def norm_written(canon):
     return c
 
 
+def read_push_promise(hexs):
+    """RFC 7540 6.6 by hand, for the one PUSH_PROMISE x/net's reader refuses on a rule that is not the layout's
+    (promised id 0): `[Pad Length (8)] R Promised Stream ID (31) fragment [Padding]`"""
+    b = bytes.fromhex(hexs) if hexs != "-" else b""
+    if len(b) < 9 or b[3] != 5 or int.from_bytes(b[:3], "big") != len(b) - 9:
+        return "malformed"
+    flags, p = b[4], b[9:]
+    if flags & 0x8:
+        if not p or p[0] > len(p) - 1:
+            return "malformed"
+        p = p[1:len(p) - p[0]]
+    if len(p) < 4:
+        return "malformed"
+    return "frame PUSH_PROMISE promised=%d eh=%d frag=%s s=%d fl=%d len=%d rest=0" % (
+        int.from_bytes(p[:4], "big") & 0x7fffffff, (flags >> 2) & 1, p[4:].hex() or "-",
+        int.from_bytes(b[5:9], "big") & 0x7fffffff, flags, len(b) - 9)
+
+
 def monitor_write(op, impl_main, xnet, want):
     v = []
     if not impl_main.startswith("ok "):
         v.append(("write-failed", impl_main[:100]))
         return v
+    if want.startswith("PUSH_PROMISE promised=0 ") and head_of(xnet)[0] == "malformed":
+        # promised id 0 is the caller's choice and a stream-level matter, not one of the layout; x/net's reader refuses
+        # the frame for it, so the octets are read by hand here (and by the RFC grammar in the second pass)
+        xnet = read_push_promise(impl_main.split(" ")[1])
     if norm_written(xnet) != norm_written(want):
         v.append(("written-differs", "meant %r, an independent reader (x/net) sees %r" % (norm_written(want)[:300], norm_written(xnet)[:300])))
     return v
